@@ -62,10 +62,15 @@ func newConn(ctx context.Context, onConnect func(*websocket.Conn) *websocket.Con
 	}, nil
 }
 
-func (c *conn) store(index int, resultChan chan data) {
+// store registers resultChan under index unless a pending call is already using that index.
+func (c *conn) store(index int, resultChan chan data) (stored bool) {
 	c.lock.Lock()
-	c.results[index] = resultChan
+	if _, pending := c.results[index]; !pending {
+		c.results[index] = resultChan
+		stored = true
+	}
 	c.lock.Unlock()
+	return
 }
 
 func (c *conn) delete(index int) {
@@ -101,7 +106,9 @@ func (c *conn) rangeAndClean(f func(index int, resultChan chan data)) {
 func (c *conn) Transport(ctx context.Context, request []byte) (response []byte, err error) {
 	index := int(atomic.AddInt32(&c.counter, 1) & 0x7fffffff)
 	resultChan := make(chan data, 1)
-	c.store(index, resultChan)
+	for !c.store(index, resultChan) {
+		index = int(atomic.AddInt32(&c.counter, 1) & 0x7fffffff)
+	}
 	select {
 	case <-ctx.Done():
 		c.delete(index)
